@@ -147,7 +147,7 @@ def roundtrip_case(ctx, seed, real_file=False, charset='latin1'):
     rng = random.Random(seed)
     fmt, div, tracks = genfile.rand_file_events(rng, EOT_MODES)
     case = lambda: {'kind': 'roundtrip', 'seed': seed, 'real_file': real_file, 'charset': charset}  # noqa: E731
-    mid = genfile.midifile_of(fmt, div, tracks, charset)
+    mid = genfile.midifile_of(fmt, div, tracks, charset, rng=random.Random(f'{seed}:assembly') if rng.random() < 0.5 else None)
     if rng.random() < 0.1:
         # elsewhere in the program a caller has been editing what the library's helpers handed back (the list from bytes() is
         # the caller's to extend, a dict() to clear ...): nothing of that may show in a file written afterwards
